@@ -208,7 +208,7 @@ func writeEvidence(verifDir string, r *Report, out outcome, tier string, seed in
 		viol = append(viol, o)
 	}
 	cov := map[string]interface{}{
-		"explanation": "Static analysis of /repo's current working tree (go/packages type-checked syntax, go/cfg dominance, go/ssa where noted). " +
+		"explanation": "Static analysis of /repo's current working tree (go/packages type-checked syntax, go/cfg dominance and path search; no code of hcl-lang is executed). " +
 			"Decides the structural necessary conditions listed in 'clauses_decided' for property " + r.Prop +
 			"; does not decide the clauses in 'not_decided'. An obligation is one rule instance (function + construct); 'discharged' counts instances the engine proved or that match a reviewed named exception.",
 		"clauses_decided":        r.Clauses,
@@ -225,7 +225,7 @@ func writeEvidence(verifDir string, r *Report, out outcome, tier string, seed in
 		"known_findings_matched": known,
 		"violations":             viol,
 		"checker_cmd":            "bin/hclverif -property " + r.Prop + " -tier " + tier,
-		"trusted_base": []string{"go/types, go/cfg, go/ssa (golang.org/x/tools v0.29.0)", "effect summaries for hcl v2.23.0, cty v1.16.2 and the standard library",
+		"trusted_base": []string{"go/types (standard library), go/packages + go/cfg (golang.org/x/tools v0.29.0)", "effect summaries for hcl v2.23.0, cty v1.16.2 and the standard library",
 			"reviewed tables in /verif/checker (nullable fields, obligation rows, exceptions)"},
 		"exhaustive": true,
 	}
